@@ -94,6 +94,25 @@ def gen_scenario(rng, kind, hooks=False, nmeth=None, fault=None):
     return {"scn": scn, "setup": setup, "trigger": list(trigger), "after": [list(a) for a in after], "kind": kind, "fault": fault}
 
 
+def directed_tail_cases():
+    """cache-miss calls whose LAST-ranked method delegates with call_next: the continuation lookup then takes the slow
+    path of MultiTypeMap.__missing__ (it reads self.all right after the first-rank hit), which no other scenario kind
+    reaches after a failure inside resolve()"""
+    out = []
+    for methods, kt in (([{"t": "int", "body": "next"}, {"t": "str"}], 0),
+                        ([{"t": "bool", "body": "next"}, {"t": "int", "body": "next"}, {"t": "str"}], 0)):
+        keys = []
+        for m in methods:
+            if KEY_FOR[m["t"]] not in keys:
+                keys.append(KEY_FOR[m["t"]])
+        keys += ["list", "float"]
+        scn = {"methods": methods, "defs0": list(range(len(methods))), "keys": keys}
+        probes = [["call", k] for k in range(len(keys))]
+        out.append({"scn": scn, "setup": [["call", keys.index("str")]], "trigger": ["call", kt],
+                    "after": probes + [["call", kt]], "kind": "miss", "fault": None})
+    return out
+
+
 def canonical(case):
     return json.dumps(case, sort_keys=True)
 
@@ -304,6 +323,7 @@ def run(ctx):
     else:
         full = [gen_scenario(rng, k) for k in ["first", "rebuild", "miss"] * 13 + ["first"]]
         n_natural, n_hook, budget = 60, 12, None
+    full += directed_tail_cases()
     for case in full:
         stats["scenario_kinds"][case["kind"]] += 1
         explore_case(ctx, case, stats, samples, budget_events=budget)
